@@ -53,9 +53,6 @@ func (r *recStore) atom(v any) string {
 	case nil:
 		return "nil"
 	case string:
-		if x == "" {
-			r.ok = false // empty strings are outside the Redis shapes
-		}
 		return sTok(x)
 	case int64:
 		return "i" + strconv.FormatInt(x, 10)
@@ -121,9 +118,6 @@ func (r *recStore) SetList(k string, vs []any, ttl time.Duration) error {
 	p := []string{"setl", kt(k), strconv.Itoa(len(vs))}
 	for _, v := range vs {
 		p = append(p, r.atom(v))
-	}
-	if len(vs) == 0 {
-		r.ok = false
 	}
 	r.rec(strings.Join(p, " ")+" "+dt(ttl), errTok(err))
 	return err
